@@ -38,7 +38,14 @@ claim("C09", "ClpLink",
       "Ties may be resolved either way (D3). Axes strictly increasing. Unit level sets the provider's axes directly. Larger axes only in thorough/simulate. Trusted: TLC, Json module.",
       "DESIGN.md §5 C09")
 
+claim("C02", "Objective",
+      "TLA+ spec Objective.tla: the objective as a staged exact pipeline over integer lattice schemes; the property's clauses (every point once, best fit per index, reduced labels, shared iff same aligned point) checked by TLC as invariants on every case; exact expected penalty vector emitted and compared entry for entry with Optimizer.objective_function",
+      "For thousands of seeded lattice schemes covering the full feature product, TLC evaluates the documented pipeline in exact integer arithmetic (an independent oracle with a different evaluation model) and checks the property's statement on it; the real penalty vector (length, order, values), additional penalties, reduced label sets per index, clp count, link decision and independence of groups must agree.",
+      "Sampled (seeded), not exhaustive, over the feature product; lattice sizes bounded by 32-bit exactness; D1, D2, D6, D7, D8, D13 of DESIGN §4. Trusted: TLC, Fraction arithmetic for sums of per-block rationals.",
+      "DESIGN.md §5 C02")
+
 ENGINES = [
+    {"name": "Objective", "path": "spec/Objective.tla", "serves_properties": ["C02", "C03", "C13", "C14"], "kind_free_text": "TLA+ staged exact pipeline (Objective.tla, ObjectiveCases.tla) over LinAlg.tla; harness/objective.py, lattice.py, c02.py, c03.py, c13.py, c14.py"},
     {"name": "ClpLink", "path": "spec/ClpLink.tla", "serves_properties": ["C09", "C02"], "kind_free_text": "TLA+ alignment state machine + ClpLinkEmit; harness/c09.py, harness/lattice.py"},
     {"name": "LeastSquares", "path": "spec/LeastSquares.tla", "serves_properties": ["C01"], "kind_free_text": "TLA+ exact oracle over fraction-free integer linear algebra (LinAlg.tla) + LeastSquaresEmit; harness/c01.py"},
     {"name": "Registry", "path": "spec/Registry.tla", "serves_properties": ["C19"], "kind_free_text": "TLA+ state machine + RegistryEmit (edge emission) + RegistryTrace (trace acceptor); harness/c19.py"},
